@@ -69,6 +69,11 @@ theorem Pres.of_onlyMembership {α} {P : State → Prop} (hP : IgnoresMembership
     | err e c' => rw [hm] at this; simp only at this ⊢; rw [this]; exact hc
     | ok a c' => rw [hm] at this; exact hP _ _ this hc⟩
 
+/-- the forget-timer, for an invariant that does not look at membership -/
+theorem removeDown_of_frame {P : State → Prop} (hM : IgnoresMembership P) (id : Id) :
+    Pres P (modS fun s => { s with ms := removeIfDown s.ms id }) :=
+  Pres.modS_of (fun s hs => hM _ _ (by simp only [OnlyMembership]) hs)
+
 /-- leaf obligations of an invariant that looks at neither membership nor the backlogs -/
 theorem Base.of_frame {E : Env} {P : State → Prop} (hM : IgnoresMembership P) (hB : IgnoresBacklogs P)
     (startProbe : ∀ m, Pres P (modS fun s => { s with probe := s.probe.start m }))
@@ -84,7 +89,6 @@ theorem Base.of_frame {E : Env} {P : State → Prop} (hM : IgnoresMembership P) 
     | err e c' => rw [hm] at this; exact this
     | ok a c' => rw [hm] at this; exact ⟨this, fun _ _ => trivial⟩⟩
   startProbe := fun m _ => startProbe m
-  removeDown := fun id => Pres.modS_of (fun s hs => hM _ _ (by simp only [OnlyMembership]) hs)
   sendMessage := Pres.sendMessage E hB
   addUpdate := fun m _ => by
     unfold Foca.addUpdate
